@@ -42,7 +42,7 @@ def _cases(draw, max_scripts=6, max_steps=12):
             elif c == "compute":
                 steps.append(["compute", draw(st.integers(1, 20))])
             elif c == "sleep":
-                steps.append(["sleep", draw(st.sampled_from([0, 0.001, 0.002, 0.01, 0.1, 0.5]))])
+                steps.append(["sleep", draw(st.sampled_from([0, 0.001, 0.002, 0.01, 0.1, 0.5, 0.0019, 0.0025, 0.0101]))])
             elif c == "spawn":
                 steps.append(["spawn", draw(st.integers(1, 4))])
             elif c == "terminate":
@@ -174,6 +174,24 @@ def _invariants(case, G, recs, slices, expected, term_targets, ctx):
         # F3: a sleeping context whose wake-up time lies in the future executes nothing (tolerance: the two clock reads of the scheduler)
         if cur[1] and cur[2] > cur[3] + 2500:
             return viol("F3-early-wakeup", ctx + "context %d was resumed at virtual time %d us, its wake-up time is %d us" % (cur[0], cur[3], cur[2]))
+    # F3b: independent of the wake-up time the VM computed itself: the next instruction of a script after `sleep d`
+    # is not executed before d has passed on the virtual clock (the argument is the PUSH in front of the CALLUNARY sleep)
+    last_push = {}
+    pending = {}
+    for rc in recs:
+        cx, inst, t_us = rc[0], rc[4], rc[5]
+        if cx in pending:
+            t0, dur = pending.pop(cx)
+            if t_us < t0 + dur * 1e6 - 1:
+                return viol("F3-resumed-before-sleep-elapsed", ctx + "context %d executed `sleep %s` at virtual time %d us and its next instruction (%s) at %d us, %d us too early" % (
+                    cx, dur, t0, inst, t_us, t0 + dur * 1e6 - t_us))
+        if inst.startswith("PUSH "):
+            last_push[cx] = inst[5:]
+        elif inst == "CALLUNARY sleep":
+            try:
+                pending[cx] = (t_us, float(last_push.get(cx, "0")))
+            except ValueError:
+                pass
     # F2: between two consecutive visits of X every context alive throughout is visited exactly once
     order = [s[0] for s in slices]
     first = {}
